@@ -69,6 +69,12 @@ func runC05(w *W) {
 			if g := LunarUtil.GetTimeZhiIndex(hm); g != slot || LunarUtil.ConvertTime(hm) != zhiS[slot] {
 				w.Viol("C05:GetTimeZhiIndex:"+hm, fmt.Sprintf("GetTimeZhiIndex(%q) = %d, ConvertTime = %s; the slot is %d %s", hm, g, LunarUtil.ConvertTime(hm), slot, zhiS[slot]), hm)
 			}
+			// the helper also takes "HH:MM:SS" (the printed time of a moment): same slot for every second of the minute
+			for _, ss := range []string{":00", ":30", ":59"} {
+				if g := LunarUtil.GetTimeZhiIndex(hm + ss); g != slot || LunarUtil.ConvertTime(hm+ss) != zhiS[slot] {
+					w.Viol("C05:GetTimeZhiIndex:"+hm+ss, fmt.Sprintf("GetTimeZhiIndex(%q) = %d, ConvertTime = %s; the slot is %d %s", hm+ss, g, LunarUtil.ConvertTime(hm+ss), slot, zhiS[slot]), hm+ss)
+				}
+			}
 			ex := di
 			if h == 23 {
 				ex = (di + 1) % 60
